@@ -50,24 +50,28 @@ def wf_records(ctx, corpus):
     return recs
 
 
-def judge_wf(ctx, recs, prop="C03"):
-    slim = [{"outcome": r["outcome"], "fn": r["fn"], "sigs": r["sigs"]} for r in recs]
-    path = ctx.trace_file(slim)
-    res = ctx.tlc("IRWF", WF_CFG, label="IRWF", env={"TRACE_FILE": path}, continue_=True)
+def judge_wf(ctx, recs, prop="C03", batch=6000):
     import os
 
-    os.unlink(path)
     bad_inputs = set()
     errs = []
-    for e in res.errors:
-        i = e.last.get("i")
-        if e.kind != "invariant" or not isinstance(i, int) or i < 1:
-            raise MachineryError("unexpected TLC error in IRWF run: %s\n%s" % (e, e.text[:1500]))
-        r = recs[i - 1]
-        if r["role"] == "input":
-            bad_inputs.add(r["id"])
-        else:
-            errs.append((r, e))
+    res = None
+    # several bounded TLC runs instead of one huge one (a single run over a thorough corpus can exceed the timeout)
+    for b0 in range(0, len(recs), batch):
+        part = recs[b0:b0 + batch]
+        slim = [{"outcome": r["outcome"], "fn": r["fn"], "sigs": r["sigs"]} for r in part]
+        path = ctx.trace_file(slim)
+        res = ctx.tlc("IRWF", WF_CFG, label="IRWF", env={"TRACE_FILE": path}, continue_=True, timeout=3600)
+        os.unlink(path)
+        for e in res.errors:
+            i = e.last.get("i")
+            if e.kind != "invariant" or not isinstance(i, int) or i < 1:
+                raise MachineryError("unexpected TLC error in IRWF run: %s\n%s" % (e, e.text[:1500]))
+            r = part[i - 1]
+            if r["role"] == "input":
+                bad_inputs.add(r["id"])
+            else:
+                errs.append((r, e))
     ctx.cov["skipped_malformed_input_traces"] = len(bad_inputs)
     seen = set()
     for r, e in errs:
@@ -95,15 +99,28 @@ class Engine:
                  "dominance, PhiComplete, TypesAgree, NoInternalError); distinct = distinct (trace, pass step, function)")
         ctx.assume("the IR projection (harness/project_ir.py) reports the module faithfully")
         levels = ("2",) if ctx.tier == "quick" else ("1", "2", "s")
-        corpus = c02.build_traces(ctx, nprog, levels=levels, seqs=2 if ctx.tier == "quick" else 3,
-                                  npat=500 if ctx.tier == "quick" else 100000)
-        recs = wf_records(ctx, corpus)
-        for r in recs:
-            if r["role"] == "after":
-                ctx.count("%s@%d:%s" % (r["id"], r["step"], r["fn"].get("name")))
-        for r in [x for x in recs if x["role"] == "after"][:3]:
-            ctx.sample({"trace": r["id"], "pass": r["pass"], "function": r["fn"].get("name"),
-                        "blocks": len(r["fn"]["blocks"])})
-        ctx.cov["programs"] = len(corpus)
-        ctx.cov["traces_validated_against_impl"] += len([1 for p in corpus for t in p["traces"]])
-        judge_wf(ctx, recs)
+        if ctx.tier == "quick":
+            rounds = [dict(nprog=nprog, seqs=2, npat=500)]
+        else:
+            # built and judged in rounds (memory; one bounded TLC run per batch of records)
+            nr = 8
+            rounds = [dict(nprog=nprog // nr, seqs=3, npat=100000, pat_slice=(k, nr)) for k in range(nr)]
+        ctx.cov["programs"] = 0
+        skipped = 0
+        for k, kw in enumerate(rounds):
+            corpus = c02.build_traces(ctx, levels=levels, **kw)
+            recs = wf_records(ctx, corpus)
+            for r in recs:
+                if r["role"] == "after":
+                    ctx.count("%s@%d:%s" % (r["id"], r["step"], r["fn"].get("name")))
+            if k == 0:
+                for r in [x for x in recs if x["role"] == "after"][:3]:
+                    ctx.sample({"trace": r["id"], "pass": r["pass"], "function": r["fn"].get("name"),
+                                "blocks": len(r["fn"]["blocks"])})
+            ctx.cov["programs"] += len(corpus)
+            ctx.cov["traces_validated_against_impl"] += len([1 for p in corpus for t in p["traces"]])
+            del corpus
+            judge_wf(ctx, recs)
+            skipped += ctx.cov.get("skipped_malformed_input_traces", 0)
+            del recs
+        ctx.cov["skipped_malformed_input_traces"] = skipped
